@@ -148,7 +148,8 @@ class PackedPointRecord:
         return PackedPointRecord(self.array.copy(), deepcopy(self.point_format))
 
     def memoryview(self) -> memoryview:
-        return memoryview(self.array)
+        # a strided selection (points[::2]) is not contiguous: writers need the records back to back
+        return memoryview(np.ascontiguousarray(self.array))
 
     def resize(self, new_size: int) -> None:
         size_diff = new_size - len(self.array)
